@@ -1044,6 +1044,10 @@ int config_setting_set_int(config_setting_t *setting, int value)
       setting->value.ival = value;
       return(CONFIG_TRUE);
 
+    case CONFIG_TYPE_INT64:
+      setting->value.llval = (long long)value;
+      return(CONFIG_TRUE);
+
     case CONFIG_TYPE_FLOAT:
       if(config_get_auto_convert(setting->config))
       {
